@@ -87,7 +87,7 @@ def split_url_table(ctx: Ctx):
         ctx.ob(rule, fi.qual, f"search for {delim!r}", dirs == {want},
                f"{what}: {delim!r} must be located at its {want} occurrence (found {sorted(dirs) or 'no search'})", where(fi, fi.node),
                sample=f"{want} occurrence")
-    one(":", "first", "scheme end")
+    scheme_detection(ctx, rule, fi, r, by_delim)
     one("#", "first", "fragment")
     one("?", "first", "query")
     # scheme: i > 0, first char and every following char in scheme_chars, lower-cased
@@ -139,6 +139,64 @@ def split_url_table(ctx: Ctx):
             if not inner and any(t[0] == "call" and t[1][0] == "attr" and t[1][2] == "partition" and t[2] == (("const", "#"),) for t in walk(v)):
                 ok, why = False, "the '?' split is not applied to the text before '#'"
     ctx.ob(rule4, fi.qual, "order of the fragment and query splits", ok, why or "", where(fi, fi.node), sample="partition('#') then partition('?') on its head")
+
+
+def scheme_detection(ctx, rule, fi, r, by_delim):
+    """The scheme ends at the first ':' and consists of scheme characters only. Two idioms are understood: the
+    find(':') + per-character membership scan, and an anchored regular expression `<class>+:`; anything else is exit 2."""
+    import re._parser as sp
+    want = set(need(lambda: __import__("sa.fold", fromlist=["ext_value"]).ext_value("urllib.parse", "scheme_chars"), "scheme_chars"))
+    ctx.instance(rule)
+    dirs = {d for d, _ in by_delim.get(":", ())}
+    if dirs:
+        sets = []
+        for e in r.by_kind("cond"):
+            t = e.test
+            if t[0] == "cmp" and t[1] in ("In", "NotIn") and t[3][0] in ("ext", "global") and "scheme" in str(t[3][2]).lower():
+                try:
+                    sets.append(set(Folder(ctx.model).fold(t[3])))
+                except CannotFold:
+                    pass
+        ok = dirs == {"first"} and bool(sets) and all(s_ == want for s_ in sets)
+        ctx.ob(rule, fi.qual, "scheme end ':' and scheme characters", ok,
+               f"the scheme must end at the FIRST ':' (found {sorted(dirs)}) and consist of scheme characters only "
+               f"(membership sets checked: {len(sets)})", where(fi, fi.node), sample="find(':') + all characters in scheme_chars")
+        return
+    # regular-expression idiom
+    pats = []
+    for e in r.by_kind("call"):
+        if e.func[0] == "attr" and e.func[2] in ("match", "fullmatch") and e.func[1][0] == "global":
+            try:
+                v = Folder(ctx.model).fold(e.func[1])
+            except CannotFold:
+                continue
+            if isinstance(v, tuple) and v and v[0] == "regex":
+                pats.append((v, e))
+    if not pats:
+        raise AnalysisError("split_url: the scheme is detected by neither a ':' search nor an anchored regular expression (unknown idiom)")
+    problems = []
+    for (tag, pat, flags), e in pats:
+        items = list(sp.parse(pat, flags))
+        if len(items) != 2 or str(items[0][0]) != "MAX_REPEAT" or str(items[1][0]) != "LITERAL" or chr(items[1][1]) != ":":
+            raise AnalysisError(f"split_url: scheme pattern {pat!r} is not `<class>+:` (unknown idiom)")
+        lo, hi, body = items[0][1]
+        body = list(body)
+        cls = set()
+        if len(body) == 1 and str(body[0][0]) == "IN":
+            for o, a in body[0][1]:
+                if str(o) == "RANGE":
+                    cls.update(chr(c) for c in range(a[0], a[1] + 1))
+                elif str(o) == "LITERAL":
+                    cls.add(chr(a))
+                else:
+                    raise AnalysisError(f"split_url: scheme pattern {pat!r}: class item {o}")
+        else:
+            raise AnalysisError(f"split_url: scheme pattern {pat!r}: not a character class")
+        if lo < 1:
+            problems.append("an empty scheme is accepted")
+        if cls != want:
+            problems.append(f"scheme character class accepts {''.join(sorted(cls - want))!r} and misses {''.join(sorted(want - cls))!r}")
+    ctx.ob(rule, fi.qual, "scheme pattern", not problems, "; ".join(problems), where(fi, fi.node), sample="<scheme chars>+ ':'")
 
 
 def split_netloc_table(ctx: Ctx):
